@@ -386,12 +386,26 @@ func (c *cmp) mapPrefix(a, b reflect.Value, path string) bool {
 	return c.mapSub(a, b, path, true)
 }
 
+// emptyish: zero value, nil, or an allocated but empty container (possibly
+// behind an interface): "nothing decoded here yet".
+func emptyish(v reflect.Value) bool {
+	for v.Kind() == reflect.Interface && !v.IsNil() {
+		v = v.Elem()
+	}
+	if v.IsZero() {
+		return true
+	}
+	return (v.Kind() == reflect.Slice || v.Kind() == reflect.Map) && v.Len() == 0
+}
+
 func (c *cmp) structPrefix(a, b reflect.Value, path string) bool {
 	partialUsed := false
 	for i := 0; i < a.NumField(); i++ {
 		fa, fb := a.Field(i), b.Field(i)
 		p := path + "." + a.Type().Field(i).Name
-		if fa.IsZero() {
+		if emptyish(fa) {
+			// nothing decoded into this field yet (an allocated but empty
+			// container is as empty as a nil one)
 			continue
 		}
 		f := c.full()
